@@ -179,6 +179,20 @@ def check_vector(v):
             if resj["status"] == "JoinFail" or (resj["status"] == "Stop" and res["status"] == "Stop" and gotj != rows):
                 bad.append({"what": "np.concatenate of the chunks differs from the file's entries", "tags": dict(tags0, lazy=lazy, op="read_chunks+concatenate", first_chunk_looked_at=jn == "peek"),
                             "vector": v, "expected": rows, "observed": resj["msg"] or gotj})
+        # the chunk stream re-cut into chunks of exactly nl entries (parser.chunk_lines): still the file's entries, in order
+        if res["status"] == "Stop" and len(rows) >= 2:
+            for nl in (2, 3):
+                def relined():
+                    from bionumpy.io.parser import chunk_lines
+                    rd, _f, _r = formats.open_reader(fmt, data, lazy, cfg["mode"] == "prepend")
+                    return [formats.project_table(c) for c in chunk_lines(rd.read_chunks(min_chunk_size=K), nl)]
+                o = outcome(relined)
+                n += 1
+                gotl = [c for c in o[1] if c] if o[0] == "ok" else None
+                if gotl is None or [r for c in gotl for r in c] != rows or any(len(c) != nl for c in gotl[:-1]) or (gotl and len(gotl[-1]) > nl):
+                    bad.append({"what": "the chunks re-cut with chunk_lines are not the file's entries in chunks of the asked size", "tags": dict(tags0, lazy=lazy, op="read_chunks+chunk_lines", n_lines=nl),
+                                "vector": v, "expected": rows, "observed": o[1] if o[0] == "err" else gotl})
+                    break
     nt = ["%s|%s" % (fam, json.dumps(cfg, sort_keys=True))] if K < cfg["flen"] else []
     return {"n": n, "nt": nt, "bad": bad, "drift": drift[:1]}
 
